@@ -11,6 +11,8 @@ pub enum OutMode {
     None,
     Direct,
     Rm3,
+    /// `>>$3`: append to the $3 file without truncating it first
+    Append,
 }
 
 impl OutMode {
@@ -22,6 +24,7 @@ impl OutMode {
             OutMode::None => "none",
             OutMode::Direct => "direct",
             OutMode::Rm3 => "rm3",
+            OutMode::Append => "append",
         }
     }
     pub fn parse(s: &str) -> OutMode {
@@ -31,6 +34,7 @@ impl OutMode {
             "none" => OutMode::None,
             "direct" => OutMode::Direct,
             "rm3" => OutMode::Rm3,
+            "append" => OutMode::Append,
             _ => OutMode::Stdout,
         }
     }
@@ -73,6 +77,9 @@ pub enum Stmt {
         flag: String,
         code: i32,
         partial: bool,
+        /// the partial output is written to $1 itself (`echo x >$1; exit 1`)
+        #[serde(default)]
+        direct: bool,
     },
     Out {
         mode: OutMode,
@@ -119,7 +126,13 @@ impl Rule {
                     flag,
                     code,
                     partial,
-                } => format!("failif\t{}\t{}\t{}", flag, code, if *partial { 1 } else { 0 }),
+                    direct,
+                } => format!(
+                    "failif\t{}\t{}\t{}",
+                    flag,
+                    code,
+                    if *direct { 2 } else if *partial { 1 } else { 0 }
+                ),
                 Stmt::Out { mode, pad } => format!("out\t{}\t{}", mode.name(), pad),
                 Stmt::KillSelf(sig) => format!("killself\t{}", sig),
             };
@@ -172,7 +185,8 @@ impl Rule {
                 "failif" if w.len() >= 4 => Stmt::FailIf {
                     flag: w[1].into(),
                     code: w[2].parse().unwrap_or(1),
-                    partial: w[3] == "1",
+                    partial: w[3] == "1" || w[3] == "2",
+                    direct: w[3] == "2",
                 },
                 "out" if w.len() >= 3 => Stmt::Out {
                     mode: OutMode::parse(w[1]),
